@@ -205,6 +205,9 @@ class C12(Check):
         backend = BACKENDS[bidx]
         nb = r.choice([1, 2, 2, 3])
         buckets = ["aw-watcher-window_h1", "aw-watcher-afk_h#1", "aw-watcher-web_h1"][:nb]
+        if rs["eqid"].random() < 0.15:
+            # an id containing '=' (round 9: an assignment split at the last '=' cuts the string literal)
+            buckets[0] = "aw-watcher-window_host=h1"
         lat = gen.lattice(rs["lat"])
         lat["n"] = min(lat["n"], 12)
         cfg = {"lat": lat, "bulk_max": 8, "upsert_p": 0.1, "never_p": 0.1}
